@@ -31,7 +31,7 @@ ANCHORS = [
     "acnportal.acnsim.models.evse:BaseEVSE.unplug",
 ]
 REQUIRED = ["runs_judged", "plug_events", "unplug_events", "regime:back-to-back-reuse", "regime:simultaneous-events",
-            "regime:recompute-after-last-departure", "regime:one-period-session", "connectivity_runs", "sched:scripted",
+            "regime:recompute-after-last-departure", "regime:one-period-session", "connectivity_runs", "regime:over-128-events-due-at-once", "sched:scripted",
             "sched:uncontrolled", "sched:sorted", "snapshots_checked"]
 BUDGET_S = {"quick": 240, "thorough": 3000}
 TRACE_RE = re.compile(r"^U*P*S?AX$")
@@ -63,6 +63,15 @@ def _corpus():
         out.append({"period": 1, "network": net, "sessions": sess, "recompute": [], "scheduler": {"kind": "uncontrolled"}, "np_seed": 3})
         out.append({"period": 1, "network": net, "sessions": sess, "recompute": [7],
                     "scheduler": {"kind": "sorted", "algo": "rr", "sort": "edf", "est": None, "unint": False, "inc": 1}, "np_seed": 3})
+    # mass events: 70 / 140 stations all vacated and re-occupied in the same period, plus a recompute there (hundreds of
+    # pending events of mixed kinds, all due at once)
+    for n in (70, 140):
+        net = {"stations": [{"id": f"m{i}", "evse": ev, "voltage": 208, "phase": 0} for i in range(n)], "constraints": [], "tol": None}
+        sess = [{"id": f"a{i}", "station": f"m{i}", "arrival": 0, "departure": 3, "requested": 1e5, "est_dep": 3, "battery": big} for i in range(n)]
+        sess += [{"id": f"b{i}", "station": f"m{i}", "arrival": 3, "departure": 5, "requested": 1e5, "est_dep": 5, "battery": big} for i in range(n)]
+        out.append({"period": 5, "network": net, "sessions": sess, "recompute": [3], "scheduler": full, "np_seed": 4})
+        sess2 = [dict(x, departure=2, est_dep=2) if x["id"].startswith("b") is False else dict(x, arrival=2, departure=4, est_dep=4) for x in sess]
+        out.append({"period": 1, "network": net, "sessions": sess2, "recompute": [2, 4], "scheduler": {"kind": "uncontrolled"}, "np_seed": 4})
     return [{"desc": d, "corpus": True} for d in out]
 
 
@@ -179,6 +188,9 @@ def run_case(case, obs):
     reuse = any(any(a["departure"] == b["arrival"] for a in v for b in v if a is not b) for v in by_st.values())
     times = [s["arrival"] for s in sess.values()] + [s["departure"] for s in sess.values()] + list(d.get("recompute", []))
     simult = len(times) != len(set(times))
+    from collections import Counter as _C
+    if max(_C(times).values()) >= 128:
+        obs.regime("regime:over-128-events-due-at-once")
     if reuse:
         obs.regime("regime:back-to-back-reuse")
     if simult:
